@@ -135,8 +135,28 @@ func genBig() {
 	walk(combo{"dr", "next"}, "big/1", "/", 2000, "", 3)
 }
 
+// V2 pagination as SDK paginators drive it (start-after re-sent beside every continuation token) on a bucket where the
+// listing order is not the byte order of the keys: the directory a/ is enumerated before its siblings a-b and a.txt,
+// whose names sort BELOW "a/" ('-' and '.' are smaller than '/'). A page that ends on such a sibling returns a token
+// that is string-smaller than the start-after still being sent.
+func genResent() {
+	keys := []string{"a/1", "a/2", "a/3", "a-b", "a.txt", "b"}
+	var hk []string
+	for _, k := range keys {
+		hk = append(hk, hx.HexS(k))
+	}
+	run("reset", hk)
+	for _, sa := range []string{"a/1", "a/2", "a-b"} {
+		for mk := 1; mk <= 3; mk++ {
+			walk(combo{"v2b", "next"}, "", "", mk, sa, len(keys)+2)
+		}
+	}
+	walk(combo{"v2b", "next"}, "", "/", 1, "a-b", len(keys)+2)
+}
+
 func generate(a *hx.Args) {
 	genBig()
+	genResent()
 	trees := subsets(names27, 5)
 	deep := subsets(deep27, 5)
 	if a.Thorough() {
